@@ -207,6 +207,46 @@ def rule_b2(ctx):
     return res
 
 
+def _difference_index(body, gs, b, t):
+    """Idiom  v = vec![_; L]; first = W.checked_sub(L)?; if a >= W { Err }; if a >= first { v[a - first] }:
+    then a - first < W - (W - L) = L.  Returns None when the site does not have this shape at all, else (ok, text)."""
+    ix = t["args"][1]
+    sub = None
+    for (r, p) in body.trace_operand(ix, through={}):
+        if r[0] == "rv" and r[1] == "binop":
+            rv = body.blocks[r[2]]["stmts"][r[3]]["rv"]
+            if rv["op"].startswith("Sub"):
+                sub = rv
+    if sub is None:
+        return None
+    a, first = sub["l"], sub["r"]
+    # the vector and its length L
+    L = None
+    for (r, p) in body.trace_operand(t["args"][0]):
+        if r[0] == "call" and mir.last_seg(r[2] or "") == "from_elem":
+            L = body.term(r[1])["args"][1]
+    if L is None:
+        return None
+    Lk = src_key(body, L)
+    # first = checked_sub(W, L) (through `?` / let-else)
+    W = None
+    for (r, p) in body.trace_operand(first):
+        if r[0] == "call" and mir.last_seg(r[2] or "") == "checked_sub":
+            ct = body.term(r[1])
+            if overlaps(src_key(body, ct["args"][1]), Lk):
+                W = ct["args"][0]
+    if W is None:
+        return (False, "the subtracted offset is not `W.checked_sub(L)` for the length L the vector was created with: nothing relates the difference to the vector's length")
+    Wk = src_key(body, W)
+    ak = src_key(body, a)
+    # a rejecting comparison of a with W dominates the site
+    for (gb, gkeys, kind, g) in gs:
+        if kind == "compare" and body.dominates(gb, b) and rejecting(body, g) and len(gkeys) == 2:
+            if (overlaps(gkeys[0], ak) and overlaps(gkeys[1], Wk)) or (overlaps(gkeys[1], ak) and overlaps(gkeys[0], Wk)):
+                return (True, "a < W tested in bb%d, offset = W - L, vector has L elements: a - offset < L" % gb)
+    return (False, "no rejecting comparison of the minuend with W (the value the offset was derived from) dominates the index")
+
+
 def rule_b3(ctx):
     res = RuleResult("B3", "index sites of the importer are dominated by a length / range test")
     root, ids = importer_bodies(ctx)
@@ -259,7 +299,13 @@ def rule_b3(ctx):
                 elif elem:
                     res.ok({"function": fid, "site": site + "[elem]", "verdict": "all elements of the index vector tested (find/any/all) in bb%d" % elem[0][0]})
                 elif computed:
-                    undecided.append("%s %s: computed index" % (fid, mir.span_str(t["sp"])))
+                    verdict = _difference_index(body, gs, b, t)
+                    if verdict is None:
+                        undecided.append("%s %s: computed index" % (fid, mir.span_str(t["sp"])))
+                    elif verdict[0]:
+                        res.ok({"function": fid, "site": site + "[a - b]", "verdict": verdict[1]})
+                    else:
+                        res.bad(Finding("B3", fid, "difference index %s not bounded by the vector's length" % site, verdict[1], t["sp"]))
                 else:
                     res.bad(Finding("B3", fid, "variable %s without range test" % site,
                                     "a value from the file is used as an index without a dominating comparison", t["sp"]))
